@@ -249,6 +249,23 @@ impl BuildHasher for PlanBH {
     }
 }
 
+/// A hash answer of the chaos (unlawful) hasher: fresh on every call, logged.  None when the hasher is lawful.
+pub fn chaos_hash_answer() -> Option<u64> {
+    with(|e| {
+        if !e.chaos_hash {
+            return None;
+        }
+        let npos = e.chaos_pos.len();
+        let tags = e.chaos_tags;
+        let rng = e.chaos_rng.as_mut().unwrap();
+        let pos = e.chaos_pos[rng.random_range(0..npos)];
+        let tag: u64 = rng.random_range(0..tags);
+        let h = (tag << 57) | pos;
+        e.hash_log.push(h);
+        Some(h)
+    })
+}
+
 pub fn plan_hash(pl: u8, class: u32) -> u64 {
     with(|e| {
         let p = &e.plans[pl as usize];
